@@ -397,6 +397,21 @@ def toy_dataset(repo, max_reads=None):
     return ds
 
 
+def mono_both_tails_dataset(seed=3, n=6):
+    """follow-up of 7594462: `n` unspliced un-annotated reads 5000..5600 that carry BOTH a polyT head and a polyA tail (no
+    strand: get_assignment_strand reports '.'); with --report_novel_unspliced true no read may end up in two models"""
+    ds = synth.Dataset(seed)
+    ds.add_chrom("chr1", 20000)
+    ds.add_gene("chr1", "G1", "+", [("T1", [(15000, 15300), (16000, 16300)])])
+    for k in range(4):
+        ds.read_from_exons("g%d" % k, "chr1", [(15000, 15300), (16000, 16300)], polya=25)
+    for k in range(n):
+        ds.read_from_exons("b%d" % k, "chr1", [(5000 + k, 5600)], polya=25, polyt=25)
+    for p in (5598, 4997):
+        _put(ds, "chr1", p, "GCGCG")
+    return ds
+
+
 def metamorphic_dataset(seed, n_chroms=2, genes_per_chrom=3, reads_per_tx=5, chrom_len=46000, novel=True, special=True):
     """noise-free reads of annotated isoforms (truncated ends, polyA/T tails) plus, with `novel`, reads of an
     unannotated exon-skipping isoform of some genes (enough copies to be reported as a novel model)"""
